@@ -207,6 +207,8 @@ def objective_case(draw, objective):
             "added": draw(st.sampled_from([[], [], []]) | st.lists(kern.REAL, min_size=1, max_size=2)),
             "combine": draw(st.sampled_from([True, True, False])),
             "mode": draw(st.sampled_from(["train", "train", "eval"])) if strategy == "Variational" else "train"}
+    if draw(st.integers(0, 3)) == 0:
+        case["reassign"] = {"N0": draw(st.sampled_from([1, 3, 10, 200])), "beta0": draw(st.sampled_from([0.05, 0.3, 1.0, 4.0]))}
     if objective == "gamma":
         case["gamma"] = draw(st.sampled_from([1.03, 1.03, 1.1, 1.5, 2.0, 3.0]) | st.floats(1.01, 3.0).map(lambda v: round(v, 3)))
         case["refuse"] = draw(st.sampled_from([None] * 38 + ["gamma<=1", "non-gaussian"]))
@@ -437,7 +439,14 @@ def build_objective(ctx, case, r, params, objective, N, beta, combine=True, gamm
         model.train(train)
         lik.train(train)
         kw = {"gamma": gamma} if objective == "gamma" else {}
-        mll = OBJ_CLS[objective](lik, model, num_data=N, beta=beta, combine_terms=combine, **kw)
+        if case.get("reassign"):
+            # beta and num_data are plain public attributes of the objective (KL warm-up / a growing data set assign them between
+            # calls): the value is defined by what they hold at call time, not at construction
+            mll = OBJ_CLS[objective](lik, model, num_data=case["reassign"]["N0"], beta=case["reassign"]["beta0"], combine_terms=combine, **kw)
+            mll.beta = beta
+            mll.num_data = N
+        else:
+            mll = OBJ_CLS[objective](lik, model, num_data=N, beta=beta, combine_terms=combine, **kw)
     return model, lik, mll
 
 
@@ -522,7 +531,7 @@ def run_objective(case, ctx: Ctx):
     ctx.label(f"obj={objective}", f"lik={l}", f"strategy={strat}", f"dist={dist}", f"mode={case['mode']}",
               f"B{'<' if B < N else ('=' if B == N else '>')}N", f"B{'<' if B < n else '='}n", f"beta{'=' if beta == 1.0 else '!='}1",
               f"S0{'!=' if VM.q_is_nontrivial(m, Sq) else '='}I", f"priors={min(npri, 3)}", f"added={len(case['added'])}",
-              f"combine={case['combine']}", f"batch={'+'.join(k for k in ('zb', 'vb', 'mb', 'xb', 'yb') if bp[k]) or 'none'}",
+              f"combine={case['combine']}", f"reassigned_beta_N={bool(case.get('reassign'))}", f"batch={'+'.join(k for k in ('zb', 'vb', 'mb', 'xb', 'yb') if bp[k]) or 'none'}",
               *([f"gamma={'1.03' if case['gamma'] == 1.03 else 'other'}"] if objective == "gamma" else []))
 
 
@@ -540,6 +549,94 @@ def build_objective_rejecting(ctx, case, r, gamma, lik_override, exc, match):
         model = LossSVGP(r, ())
         lik = build_lik(lik_override or case["lik"])
         gpytorch.mlls.GammaRobustVariationalELBO(lik, model, num_data=case["N"], beta=case["beta"], gamma=gamma)
+
+
+# ---------------------------------------------------------------------------------------------------
+# (a'): multi-output q(f) (LMC / independent multitask strategies, MultitaskGaussianLikelihood with diagonal task noise): the first term
+# is (1/B) sum over the B points of sum over the tasks - B is the number of POINTS.  q(f) and KL are the library's own (their
+# correctness is C14's subject); asserted here is how the objective is put together from them.
+# ---------------------------------------------------------------------------------------------------
+@st.composite
+def multitask_objective_case(draw):
+    from pbt.props import c14
+
+    case = draw(c14.multitask_case(draw(st.sampled_from(["lmc", "indep"]))))
+    case["ti"] = None
+    if case["bp"]["xb"]:
+        case["bp"]["xb"] = []
+        case["X"] = T(case["X"], dtype=F64).reshape(-1, case["n"], case["d"])[0].tolist()
+    case["model"]["strategy"] = "Variational"
+    case["mode"] = draw(st.sampled_from(["train", "train", "eval"]))
+    case["init"] = "flag"
+    Tn, n = case["T"], case["n"]
+    g = draw(st.booleans())
+    case["mt_lik"] = {"global": g or draw(st.booleans()), "task": (not g) or draw(st.booleans())}
+    case["mt_lik"]["noise"] = draw(kern.pos(0.05, 2.0))
+    case["mt_lik"]["task_noises"] = draw(kern.arr([Tn], kern.pos(0.05, 2.0)))
+    case["y"] = draw(kern.arr([n, Tn], kern.REAL))
+    case["objective"] = draw(st.sampled_from(["elbo", "elbo", "pll"]))
+    case["N"] = draw(st.sampled_from([n, 7, 2 * n + 1, 50, 1000]))
+    case["beta"] = draw(st.sampled_from([0.1, 0.5, 1.0, 2.0]))
+    case["combine"] = draw(st.sampled_from([True, True, False]))
+    if draw(st.integers(0, 3)) == 0:
+        case["reassign"] = {"N0": draw(st.sampled_from([1, 3, 10, 200])), "beta0": draw(st.sampled_from([0.05, 0.3, 1.0, 4.0]))}
+    return case
+
+
+def run_multitask_objective(case, ctx: Ctx):
+    r = case["model"]
+    kind = "LMC" if "lmc" in r else "Independent"
+    objective, Tn, n, N, beta = case["objective"], case["T"], case["n"], case["N"], case["beta"]
+    ctx.cls = f"multitask|{objective}|{kind}|T{Tn}|{case['layout']}|{case['mode']}"
+    X, y = T(case["X"], dtype=F64), T(case["y"], dtype=F64)
+    m, Sq = VM.q_tensors(case["q"])
+    blk = VO.prior_blocks(r["kernel"], r["mean"], r["Z"], X, jit_of(r["jitter"]), case["bp"]["vb"])
+    if blk.kappa > 1e8:
+        raise Discard("ill-conditioned Kzz (kappa > 1e8)")
+    ml = case["mt_lik"]
+    with ctx.observing("build"):
+        model = VM.RecipeSVGP(r)
+        VM.set_q(VM.base_strategy(model), VO.encode(r["dist"], m, Sq), mark=True)
+        lik = gpytorch.likelihoods.MultitaskGaussianLikelihood(num_tasks=Tn, rank=0, has_global_noise=ml["global"], has_task_noise=ml["task"])
+        if ml["global"]:
+            lik.noise = T([ml["noise"]], dtype=F64)
+        if ml["task"]:
+            lik.task_noises = T(ml["task_noises"], dtype=F64)
+        train = case["mode"] == "train"
+        model.train(train)
+        lik.train(train)
+        if case.get("reassign"):
+            mll = OBJ_CLS[objective](lik, model, num_data=case["reassign"]["N0"], beta=case["reassign"]["beta0"], combine_terms=case["combine"])
+            mll.beta, mll.num_data = beta, N
+        else:
+            mll = OBJ_CLS[objective](lik, model, num_data=N, beta=beta, combine_terms=case["combine"])
+    with ctx.observing("objective"):
+        out = model(X)
+        got = mll(out, y)
+        got = got.detach().clone() if case["combine"] else tuple(g.detach().clone() for g in got)
+        qm, qv = out.mean.detach(), out.variance.detach()
+        kl = model.variational_strategy.kl_divergence().detach()
+    if not ctx.check("q(f).event_shape", tuple(qm.shape[-2:]) == (n, Tn), f"q(f) mean has shape {tuple(qm.shape)}, expected (..., {n}, {Tn})", kind="shape"):
+        return
+    s_t = (T(ml["task_noises"], dtype=F64) if ml["task"] else torch.zeros(Tn, dtype=F64)) + (ml["noise"] if ml["global"] else 0.0)
+    if objective == "elbo":
+        terms = -0.5 * (((y - qm) ** 2 + qv) / s_t + torch.log(s_t) + LOG2PI)
+    else:
+        terms = -0.5 * ((y - qm) ** 2 / (qv + s_t) + torch.log(qv + s_t) + LOG2PI)
+    first = terms.sum((-1, -2)) / n
+    w_kl = kl * (beta / N)
+    tol = 1e-10 * (1.0 + float(first.abs().max()) + float(w_kl.abs().max()))
+    if case["combine"]:
+        _close_b(ctx, "value", got, first - w_kl, tol)
+    else:
+        ctx.equal("n_pieces", len(got), 3)
+        if len(got) >= 3:
+            _close_b(ctx, "piece.log_likelihood", got[0], first, tol)
+            _close_b(ctx, "piece.kl", got[1], w_kl, tol)
+            _close_b(ctx, "piece.log_prior", got[2], torch.zeros(()), 1e-12)
+    ctx.set_nontrivial(Tn >= 2 and n >= 2 and n != N and VM.q_is_nontrivial(m, Sq))
+    ctx.label(f"obj={objective}", f"multitask={kind}", f"tasks={Tn}", f"layout={case['layout']}", f"mode={case['mode']}",
+              f"reassigned_beta_N={bool(case.get('reassign'))}", f"combine={case['combine']}", f"noise={'global+task' if ml['global'] and ml['task'] else ('global' if ml['global'] else 'task')}")
 
 
 # ---------------------------------------------------------------------------------------------------
@@ -806,6 +903,7 @@ SPEC = PropertySpec(
     subchecks=[
         Subcheck("elbo.definition", run_objective, strategy=lambda: objective_case("elbo"), quick=2400, thorough=60000, min_shard=50, max_shards=8),
         Subcheck("pll.definition", run_objective, strategy=lambda: objective_case("pll"), quick=1600, thorough=40000, min_shard=50, max_shards=8),
+        Subcheck("elbo.multitask", run_multitask_objective, strategy=multitask_objective_case, quick=800, thorough=20000, min_shard=40, max_shards=8),
         Subcheck("gamma_robust.definition", run_objective, strategy=lambda: objective_case("gamma"), quick=800, thorough=20000, min_shard=40, max_shards=8),
         Subcheck("bound.lower", run_lower, strategy=lambda: regression_case(VO.GAUSSIAN_DISTS, [1e-10], lower=True), quick=1200, thorough=30000, min_shard=40, max_shards=8),
         Subcheck("bound.collapsed", run_collapsed,
